@@ -305,3 +305,16 @@ func CopyDisk(from, to string) {
 	disks[to] = &disk{cfs: cfs, writesLeft: -1}
 	disksMu.Unlock()
 }
+
+// PutRaw stores raw bytes under a key of a column family, bypassing the write log and the fault plan
+// (used by the harness to plant malformed records).
+func (c *StubControl) PutRaw(cf string, key, value []byte) {
+	c.d.mu.Lock()
+	defer c.d.mu.Unlock()
+	m := c.d.cfs[cf]
+	if m == nil {
+		m = map[string][]byte{}
+		c.d.cfs[cf] = m
+	}
+	m[string(key)] = append([]byte(nil), value...)
+}
